@@ -168,10 +168,30 @@ func checkC20(w *World, r *Report) {
 	r.Check(okWatch && nStart > 0, "escalation.watcher-spawned", hname+": watcher spawned when the context can end", w.Pos(handler.Pos()), "whenever ctx.Done() is non-nil a watcher goroutine is spawned after Start", "no watcher goroutine is spawned for a cancellable context: a canceled task keeps running")
 
 	// ---- ESCALATION inside the watcher
+	// the watcher: what the handler launches with its go statement — a closure, or a function
+	// that gets the context's done channel, the command and the kill timeout as arguments
 	var watcher *ssa.Function
-	for _, a := range handler.AnonFuncs {
-		watcher = a
-	}
+	timeoutAP := "arg0" // the constructor's kill-timeout parameter as the watcher sees it
+	allInstrs(handler, func(in ssa.Instruction) {
+		g, ok := in.(*ssa.Go)
+		if !ok {
+			return
+		}
+		if cl := funcValue(g.Call.Value); cl != nil && cl.Parent() != nil {
+			watcher = cl
+		} else if sf := g.Call.StaticCallee(); sf != nil && sf.Blocks != nil && w.InModule(sf) {
+			watcher = sf
+			timeoutAP = ""
+			for i, a := range g.Call.Args {
+				if p, ok := w.Resolve(a).(*ssa.Parameter); ok && p.Parent() == mk {
+					timeoutAP = fmt.Sprintf("arg%d", i)
+					if sf.Signature.Recv() != nil {
+						timeoutAP = fmt.Sprintf("arg%d", i-1)
+					}
+				}
+			}
+		}
+	})
 	if watcher == nil {
 		r.Viol("escalation.kill", hname+": watcher goroutine", w.Pos(handler.Pos()), "the exec handler has no watcher closure")
 	} else {
@@ -183,7 +203,7 @@ func checkC20(w *World, r *Report) {
 		for _, p := range wr.Paths {
 			var nonPositive *bool
 			for _, l := range p.Lits {
-				if l.Atom.Op == "<=" && l.Atom.L == "arg0" && l.Atom.R == "0" {
+				if l.Atom.Op == "<=" && l.Atom.L == timeoutAP && l.Atom.R == "0" {
 					v := l.Val
 					nonPositive = &v
 				}
@@ -219,7 +239,7 @@ func checkC20(w *World, r *Report) {
 				for _, dp := range dr.Paths {
 					slept, killed := -1, -1
 					for i, e := range dp.Effects {
-						if e.Kind == "call" && e.Target == "time.Sleep" && e.Val == "arg0" {
+						if e.Kind == "call" && e.Target == "time.Sleep" && e.Val == timeoutAP {
 							slept = i
 						}
 						if e.Kind == "call" && e.Target == "syscall.Kill" && strings.HasSuffix(e.Val, ","+sigKILL) {
